@@ -7,7 +7,7 @@ C05 — response data is well-typed: from the leaf to the whole value under a fi
 `armSoundOutR`.  `C05_data` lifts it, by induction over the nesting of list / non-null wrappers and of
 the returned Go lists, to everything `resolveData` produces: the response value is `wellTyped`.
 -/
-import Ggql.Props.C05
+import Ggql.Props.C04
 import Ggql.Model.Leaf
 namespace Ggql.Coerce
 
@@ -90,6 +90,44 @@ theorem C05_leaf_resp (ext : Ext F) (laws : ExtLaws ext) (s : Scalar) (tbl : Tab
         have hr' := hr
         simp only [inRange64, Bool.and_eq_true, decide_eq_true_eq] at hr'
         simp [leafOut, checkOut, NumT.kind, GoVal.kind, Scalar.outKind, wrapInt, wrap64_id i hr'.1 hr'.2, hr, intValue, hp]
+    · -- Float ← string, finiteness-checked
+      rename_i t; cases t <;> simp at hm
+      obtain ⟨str, rfl⟩ := str_of_kind v hm hw
+      simp only [GoVal.kind] at ha
+      simp only [coerce, GoVal.kind, ha, applyAction, hft]
+      cases hp : ext.parse str with
+      | none => simp [leafOut, checkOut]
+      | some x =>
+        by_cases hf : ext.isFinite (ext.round32 x) = true
+        · simp [leafOut, checkOut, GoVal.kind, Scalar.outKind, NumT.kind, hf]
+        · simp [leafOut, checkOut, hf]
+    · -- Float ← float, finiteness-checked
+      rename_i t; cases t <;> simp at hm
+      obtain ⟨k, x, rfl⟩ := flt_of_kind v hm hw
+      simp only [GoVal.kind] at ha
+      simp only [coerce, GoVal.kind, ha, applyAction, hft, convTo]
+      by_cases hf : ext.isFinite (ext.round32 x) = true
+      · simp [leafOut, checkOut, GoVal.kind, Scalar.outKind, hf]
+      · simp [leafOut, checkOut, hf]
+    · -- Float64 ← string, finiteness-checked
+      rename_i t; cases t <;> simp at hm
+      obtain ⟨str, rfl⟩ := str_of_kind v hm hw
+      simp only [GoVal.kind] at ha
+      simp only [coerce, GoVal.kind, ha, applyAction, hft]
+      cases hp : ext.parse str with
+      | none => simp [leafOut, checkOut]
+      | some x =>
+        by_cases hf : ext.isFinite x = true
+        · simp [leafOut, checkOut, GoVal.kind, Scalar.outKind, NumT.kind, hf]
+        · simp [leafOut, checkOut, hf]
+    · -- Float64 ← float, finiteness-checked
+      rename_i t; cases t <;> simp at hm
+      obtain ⟨k, x, rfl⟩ := flt_of_kind v hm hw
+      simp only [GoVal.kind] at ha
+      simp only [coerce, GoVal.kind, ha, applyAction, hft, convTo]
+      by_cases hf : ext.isFinite x = true
+      · simp [leafOut, checkOut, GoVal.kind, Scalar.outKind, hf]
+      · simp [leafOut, checkOut, hf]
     · -- Boolean ← string
       simp only [beq_iff_eq] at hm
       obtain ⟨str, rfl⟩ := str_of_kind v hm hw
